@@ -20,7 +20,9 @@ import (
 func c10Sources(r *core.Run) {
 	np := r.N(2, 12)
 	for k := 0; k < np; k++ {
-		c := &c19Case{Seed: r.Seed, Idx: 9100 + k, Toolchain: "go"}
+		// a long chain: frames on lines 100..400 of a file whose functions start at line 11, so that a line number
+		// cut after its first or second digit names a line of another function
+		c := &c19Case{Seed: r.Seed, Idx: 9100 + 2*k, Toolchain: "go", Funcs: 70 + 10*(k%3)}
 		bp, err := buildAndCrash(c)
 		if err != nil {
 			r.Broken(err.Error())
